@@ -47,9 +47,10 @@ func init() {
 			"Added after blind round 7: GetNextSequence answers with the counter in every state (the rotation asks a log it has just marked rotating); SkipList.Find's selection table cross-listed (ties between equal sequence numbers). " +
 			"Added after blind round 8: every exit of MemTablePool.Put/Delete passes MemTable.Put/Delete (no 'redundant write' shortcut in the pool). " +
 			"Added after blind round 9: every answering exit of EngineFacade.Get / IsDeleted passes a storage lookup made by this invocation, directly or in a helper on every path — not inside a function literal that a once/coalescing/memo object decides to run. " +
-			"Added after blind round 10: the memtable's Put/Delete always insert; behind the success edge of storage.Put/Delete the facade has no failing exit and makes no new error.",
+			"Added after blind round 10: the memtable's Put/Delete always insert; behind the success edge of storage.Put/Delete the facade has no failing exit and makes no new error. " +
+			"Added after blind round 11: the shared table file is read positionally (no Seek/Read through the file's shared offset under a shared lock).",
 		NotDecided: "everything else: real-time order, stale reads across rotation, all schedules with background flush/compaction.",
-		Rules:      []func(*Ctx, *Reporter){ruleStSingleWriter, ruleStEffectOnce, ruleStStamps, ruleWalRotatingNoEffect, ruleStWalPointer, ruleLayersLeaveOnly, ruleStRotationSeqOnly, ruleWalStatusUnderLock, ruleStWriteAhead, subRules(ruleMemImmutableFields, "entry-copies"), ruleGetNextSequenceAlwaysAnswers, subRules(ruleMemFind, "find-selection-table"), rulePoolWritesReachTable, ruleFacadeReadsStorageEveryTime, ruleMemTablePutAlwaysInserts, ruleFacadeErrorMeansNoEffect},
+		Rules:      []func(*Ctx, *Reporter){ruleStSingleWriter, ruleStEffectOnce, ruleStStamps, ruleWalRotatingNoEffect, ruleStWalPointer, ruleLayersLeaveOnly, ruleStRotationSeqOnly, ruleWalStatusUnderLock, ruleStWriteAhead, subRules(ruleMemImmutableFields, "entry-copies"), ruleGetNextSequenceAlwaysAnswers, subRules(ruleMemFind, "find-selection-table"), rulePoolWritesReachTable, ruleFacadeReadsStorageEveryTime, ruleMemTablePutAlwaysInserts, ruleFacadeErrorMeansNoEffect, rulePositionalReadsOnSharedFiles},
 	})
 	register(&PropertyDef{
 		ID: "C08",
@@ -64,9 +65,10 @@ func init() {
 			"Added after blind round 7: GetNextSequence answers in every state; the acknowledged position of a session only moves forward (cross-listed from C13). " +
 			"Added after blind round 8: the replay rule of C02 (a replay that fails on a legal entry type sends recovery down the arm that restarts the numbering). " +
 			"Added after blind round 9: one lock is held exclusively at every call of storage.Manager.rotateWAL (two overlapping rotations seed two logs from the same counter; repaired in 1685eec); the only way past the store in WAL.UpdateNextSequence is 'not larger than the counter'. " +
-			"Added after blind round 10: closed log segments are deleted only from the reviewed caller (the primary's retention).",
+			"Added after blind round 10: closed log segments are deleted only from the reviewed caller (the primary's retention). " +
+			"Added after blind round 11: what is stored to Primary.lastSyncedSeq is a last-used sequence, never WAL.GetNextSequence() as it is.",
 		NotDecided: "the actual numbers in a log directory after arbitrary histories; interactions between WAL retention and sequence numbers stored in SSTables.",
-		Rules:      []func(*Ctx, *Reporter){ruleWalMonotone, ruleStRotationSeqOnly, ruleStRecovery, ruleStStamps, ruleWalStatusUnderLock, ruleWalCounterUnderLock, ruleExplicitSeqBelowCounter, ruleLogExistsBeforeRecovery, ruleReportedSeqMonotone, subRules(ruleRetention, "retention-spares-current-log"), subRules(ruleReplCursorWriters, "cursor-writers"), ruleGetNextSequenceAlwaysAnswers, ruleReplayMirrorsLiveApply, ruleRotationsAreSerialised, ruleHandOverAlwaysTaken, ruleRetentionCallers},
+		Rules:      []func(*Ctx, *Reporter){ruleWalMonotone, ruleStRotationSeqOnly, ruleStRecovery, ruleStStamps, ruleWalStatusUnderLock, ruleWalCounterUnderLock, ruleExplicitSeqBelowCounter, ruleLogExistsBeforeRecovery, ruleReportedSeqMonotone, subRules(ruleRetention, "retention-spares-current-log"), subRules(ruleReplCursorWriters, "cursor-writers"), ruleGetNextSequenceAlwaysAnswers, ruleReplayMirrorsLiveApply, ruleRotationsAreSerialised, ruleHandOverAlwaysTaken, ruleRetentionCallers, ruleLastSequenceConvention},
 	})
 }
 
@@ -119,9 +121,10 @@ func init() {
 			"Added after blind round 7: after every successful decodeNext the decoded key becomes the block iterator's current key before the next decode (delta base = predecessor); recovery limits and flush table cross-listed. " +
 			"Added after blind round 8: the block fetcher accepts every block size the writer can produce (no constant cap on a failing exit). " +
 			"Added after blind round 9: the pool-write rule of C06 and the selection comparator of C12 are listed here too (a tombstone that is not inserted, a newer file moved below an older one). " +
-			"Added after blind round 10: every *.sst entry of the table directory is opened and appended at load, or the open fails (no other way to pass a file over than 'directory' or 'other extension'); the memtable's Put/Delete always insert unless the table is immutable.",
+			"Added after blind round 10: every *.sst entry of the table directory is opened and appended at load, or the open fails (no other way to pass a file over than 'directory' or 'other extension'); the memtable's Put/Delete always insert unless the table is immutable. " +
+			"Added after blind round 11: between positioning the index cursor and positioning the data block iterator, every positioning method of sstable.Iterator loads the block the index points at.",
 		NotDecided: "that the bytes returned equal the bytes put for every program (values); block/index seek landing inside SSTables (value-level binary search — the pinned tree gets this wrong, declared under C11); effects of memtable-size configurations.",
-		Rules:      []func(*Ctx, *Reporter){ruleLayerOrder, ruleTombstoneShortCircuit, ruleMemComparator, ruleMemFind, ruleMemInsert, ruleFlushRules, ruleStStamps, ruleEmptyNotDeleted, ruleTombstoneMarker, ruleRecencyAtLoad, ruleTxOpsBuffered, ruleWalNoBufferDrop, ruleWalFragmentation, ruleSortKeysFromSortedSlice, ruleMemTableGetTable, ruleRecoveryLastTableMutable, ruleComparatorNoSubtraction, ruleFlushKeepsNewest, ruleDeltaBaseIsPredecessor, ruleRecoveryLimitsAreConfigured, ruleNoCapOnBlockSize, rulePoolWritesReachTable, ruleSelectionTakesOldest, ruleLoaderLoadsEveryTable, ruleMemTablePutAlwaysInserts},
+		Rules:      []func(*Ctx, *Reporter){ruleLayerOrder, ruleTombstoneShortCircuit, ruleMemComparator, ruleMemFind, ruleMemInsert, ruleFlushRules, ruleStStamps, ruleEmptyNotDeleted, ruleTombstoneMarker, ruleRecencyAtLoad, ruleTxOpsBuffered, ruleWalNoBufferDrop, ruleWalFragmentation, ruleSortKeysFromSortedSlice, ruleMemTableGetTable, ruleRecoveryLastTableMutable, ruleComparatorNoSubtraction, ruleFlushKeepsNewest, ruleDeltaBaseIsPredecessor, ruleRecoveryLimitsAreConfigured, ruleNoCapOnBlockSize, rulePoolWritesReachTable, ruleSelectionTakesOldest, ruleLoaderLoadsEveryTable, ruleMemTablePutAlwaysInserts, ruleTableIteratorLoadsWhatItIndexed},
 	})
 	register(&PropertyDef{
 		ID: "C05",
@@ -136,9 +139,10 @@ func init() {
 			"Added after blind round 7: the scan-sources rule of C04, including the loop bounds; the iterator adapters' Seek always passes the wrapped iterator's Seek with the caller's target. " +
 			"Added after blind round 8: the buffer-seek rule; sstable.Iterator positions its index cursor before reading it in seekToFirst/SeekToLast/Seek; FilteredIterator.SeekToLast's fallback scan runs to the end of the inner iterator; the merge-next rule of C03. " +
 			"Added after blind round 9: Value() copies keep nil nil; sources hand tombstones to the merge (no positioning function of a memtable, table, block, buffer, bounding or filtering iterator asks IsTombstone or reads a delete flag). " +
-			"Added after blind round 10: no function of the table reader branches on a comparison of a block locator's size with a constant.",
+			"Added after blind round 10: no function of the table reader branches on a comparison of a block locator's size with a constant. " +
+			"Added after blind round 11: every exit of SeekToFirst/SeekToLast/Seek of sstable.Iterator has set the `initialized` flag that Key/Value/Valid depend on.",
 		NotDecided: "exactness of the key set for all data sets, seek landing inside SSTable blocks (see C11), scans concurrent with writers beyond the snapshot rule.",
-		Rules:      []func(*Ctx, *Reporter){ruleSourceOrder, ruleMergePolicy, ruleBounds, ruleFilter, ruleScanConsumers, ruleMemVisibility, ruleTxOwnWrites, ruleCompositePositionsEveryChild, ruleMemSeekToLastNewest, ruleScanSourcesComplete, ruleAdapterSeekAlwaysSeeks, ruleBufferSeekStateless, ruleTableIteratorRewindsIndex, ruleFilteredSeekToLastScansAll, ruleMergeNextStepsOnly, ruleValueWrappersKeepNil, ruleSourcesDoNotHideTombstones, ruleNoCapOnLocatorSize},
+		Rules:      []func(*Ctx, *Reporter){ruleSourceOrder, ruleMergePolicy, ruleBounds, ruleFilter, ruleScanConsumers, ruleMemVisibility, ruleTxOwnWrites, ruleCompositePositionsEveryChild, ruleMemSeekToLastNewest, ruleScanSourcesComplete, ruleAdapterSeekAlwaysSeeks, ruleBufferSeekStateless, ruleTableIteratorRewindsIndex, ruleFilteredSeekToLastScansAll, ruleMergeNextStepsOnly, ruleValueWrappersKeepNil, ruleSourcesDoNotHideTombstones, ruleNoCapOnLocatorSize, ruleTableIteratorMarksItselfPositioned},
 	})
 }
 
